@@ -7,35 +7,82 @@ The match limit as a sink script: first refusal, and the shape of grep-model str
 namespace RgVerif.MaxCount
 open RgVerif RgVerif.Searcher RgVerif.GrepSpec
 
-theorem maxCount_firstStop {N A k : Nat} {rest : List Event} (hnb : NoBegin rest)
-    (hq : quitIndex N A (Event.begin :: rest) = some k) :
-    FirstStop (maxCountScript (some N) A (Event.begin :: rest)) k ∧
-      maxCountScript (some N) A (Event.begin :: rest) k = .stop := by
-  rw [← firstFalse_eq_quitIndex N A rest hnb] at hq
-  obtain ⟨_, h2, h3⟩ := firstFalse_spec _ 0 k hq
+theorem scriptOf_firstStop {as : List Bool} {k : Nat} (h : firstFalse 0 as = some k) :
+    FirstStop (scriptOf as) k ∧ scriptOf as k = .stop := by
+  obtain ⟨_, h2, h3⟩ := firstFalse_spec _ 0 k h
   simp only [Nat.sub_zero] at h2 h3
-  have hk : maxCountScript (some N) A (Event.begin :: rest) k = .stop := by
-    unfold maxCountScript; rw [h2]; simp
+  have hk : scriptOf as k = .stop := by unfold scriptOf; rw [h2]; simp
   refine ⟨⟨fun i hi => ?_, by rw [hk]; exact fun h => Resp.noConfusion h⟩, hk⟩
-  unfold maxCountScript; rw [h3 i hi]; simp
+  unfold scriptOf; rw [h3 i hi]; simp
 
-theorem maxCount_never {N A : Nat} {rest : List Event} (hnb : NoBegin rest)
-    (hq : quitIndex N A (Event.begin :: rest) = none) :
-    maxCountScript (some N) A (Event.begin :: rest) = allCont := by
-  rw [← firstFalse_eq_quitIndex N A rest hnb] at hq
+theorem scriptOf_never {as : List Bool} (h : firstFalse 0 as = none) : scriptOf as = allCont := by
   funext j
-  unfold maxCountScript allCont
-  have := firstFalse_none _ 0 hq j
-  cases h : (answers (some N) A {} (Event.begin :: rest))[j]? with
+  unfold scriptOf allCont
+  have := firstFalse_none _ 0 h j
+  cases hj : as[j]? with
   | none => simp
   | some b =>
     cases b with
     | true => simp
-    | false => rw [h] at this; exact absurd rfl this
+    | false => rw [hj] at this; exact absurd rfl this
 
-theorem maxCountScript_ne_err (limit : Option Nat) (A : Nat) (E : List Event) (k : Nat) :
-    maxCountScript limit A E k ≠ .err := by
-  unfold maxCountScript; split <;> exact fun h => Resp.noConfusion h
+theorem scriptOf_ne_err (as : List Bool) (k : Nat) : scriptOf as k ≠ .err := by
+  unfold scriptOf; split <;> exact fun h => Resp.noConfusion h
+
+/-- the Summary sink first refuses where the Standard sink without after-context does: at the `N`-th match -/
+theorem summary_phase (N : Nat) : ∀ (E : List Event) (i mc : Nat), mc < N → NoBegin E →
+    firstFalse i (summaryAnswers (some N) mc E) = firstFalse i (answers (some N) 0 ⟨mc, 0⟩ E) := by
+  intro E
+  induction E with
+  | nil => intro i mc _ _; rfl
+  | cons ev rest ih =>
+    intro i mc hmc hnb
+    have hnb' : NoBegin rest := fun e he => hnb e (by simp [he])
+    have hev : ev ≠ Event.begin := hnb ev (by simp)
+    have hq : shouldQuit (some N) ⟨mc, 0⟩ = false := by simp [shouldQuit, hmc]
+    cases ev with
+    | begin => exact absurd rfl hev
+    | matched ln off bs =>
+      have hpc : (pcStep (some N) 0 ⟨mc, 0⟩ (Event.matched ln off bs)).1 = ⟨mc + 1, 0⟩ := by
+        simp only [pcStep]; split <;> rfl
+      simp only [summaryAnswers, answers, scStep, hpc, firstFalse]
+      have ha : (pcStep (some N) 0 ⟨mc, 0⟩ (Event.matched ln off bs)).2 = !decide (mc + 1 ≥ N) := by
+        simp only [pcStep]
+        have : ∀ pc : PC, pc = ⟨mc + 1, 0⟩ → shouldQuit (some N) pc = decide (mc + 1 ≥ N) := by
+          intro pc h; subst h
+          by_cases hl : mc + 1 < N
+          · simp [shouldQuit, hl]
+          · simp [shouldQuit, hl]; omega
+        split <;> (rw [this _ rfl])
+      rw [ha]
+      by_cases hge : mc + 1 ≥ N
+      · simp [hge]
+      · simp only [hge, decide_false, Bool.not_false, if_true]
+        exact ih (i + 1) (mc + 1) (by omega) hnb'
+    | context kind ln off bs =>
+      have hpc : (pcStep (some N) 0 ⟨mc, 0⟩ (Event.context kind ln off bs)) = (⟨mc, 0⟩, true) := by
+        simp only [pcStep]; split <;> simp [hq]
+      simp only [summaryAnswers, answers, scStep, hpc, firstFalse, if_true]
+      exact ih (i + 1) mc hmc hnb'
+    | contextBreak =>
+      simp only [summaryAnswers, answers, scStep, pcStep, firstFalse, if_true]
+      exact ih (i + 1) mc hmc hnb'
+    | binaryData o =>
+      simp only [summaryAnswers, answers, scStep, pcStep, firstFalse, if_true]
+      exact ih (i + 1) mc hmc hnb'
+    | finish a b =>
+      simp only [summaryAnswers, answers, scStep, pcStep, firstFalse, if_true]
+      exact ih (i + 1) mc hmc hnb'
+
+/-- **the Summary sink with limit `N` first refuses at the `N`-th `matched` callback** -/
+theorem summary_firstFalse_eq_quitIndex (N : Nat) (rest : List Event) (hnb : NoBegin rest) :
+    firstFalse 0 (summaryAnswers (some N) 0 (Event.begin :: rest)) = quitIndex N 0 (Event.begin :: rest) := by
+  rw [← firstFalse_eq_quitIndex N 0 rest hnb]
+  by_cases hN : N = 0
+  · subst hN; simp [summaryAnswers, scStep, answers, pcStep, firstFalse]
+  · have hb : (some N == some 0) = false := by simp [hN]
+    simp only [summaryAnswers, scStep, answers, pcStep, hb, Bool.not_false, firstFalse, if_true]
+    exact summary_phase N rest 1 0 (by omega) hnb
 
 /-- a grep-model stream starts with `begin` and has no other `begin` -/
 theorem grepSpecLines_shape (cfg : Config) (sl : List SLine) :
